@@ -627,9 +627,9 @@ impl Element {
                                     if !binding_map_keys.is_empty(bmc) {
                                         binding_map_keys.to_proc_gen_write_map(w, bmc, |w| {
                                             w.expr_stmt(|w| {
-                                                write!(w, "R.s(N,")?;
+                                                write!(w, "R.s(N,Y(")?;
                                                 p.value_expr(w)?;
-                                                write!(w, ")")?;
+                                                write!(w, "))")?;
                                                 Ok(())
                                             })
                                         })?;
@@ -645,7 +645,12 @@ impl Element {
                         match slot_kind {
                             SlotKind::None => write!(w, "undefined")?,
                             SlotKind::Static(s) => write!(w, "{}", gen_lit_str(s))?,
-                            SlotKind::Dynamic(p) => p.value_expr(w)?,
+                            SlotKind::Dynamic(p) => {
+                                // a slot name is a string: an undefined value must reset the slot, not be skipped
+                                write!(w, "Y(")?;
+                                p.value_expr(w)?;
+                                write!(w, ")")?;
+                            }
                         }
                         if let Some(var_slot_map) = var_slot_names {
                             if var_slot_map.len() > 0 {
